@@ -132,10 +132,17 @@ def step (w : World) (toks : List String) : World × String :=
         let okF := b.links.all (fun fl => match w.blocks.get? fl with
           | some fb => isMerged w.blocks (headsOf s fb.kind) fb.id fb.height || addDeltaOk w.blocks (headsOf s fb.kind) fb
           | none => false)
+        -- the hypotheses of `local_write_is_a_delivery` (Props/C01): the new commit is not merged, its parents are
+        let hypLocal := !(b.kind == .comp) ||
+          (!isMerged w.blocks s.heads b.id b.height &&
+            b.parents.all (fun p => match w.blocks.get? p with
+              | some pb => isMerged w.blocks s.heads p pb.height
+              | none => true))
         let rep' := processBlock (cx w) 4 rep b
         let w' := { w with reps := w.reps.set! r rep', merged := w.merged.set! r (closeUnder w.blocks id (w.merged[r]!)) }
         let v := viewLine w' r doc
-        (w', if okC && okF then v else v ++ " BAD-ADD-DELTA")
+        ((w', if okC && okF then v else v ++ " BAD-ADD-DELTA").1,
+          (if okC && okF then v else v ++ " BAD-ADD-DELTA") ++ (if hypLocal then "" else " LOCAL-WRITE-HYPOTHESIS-FALSE"))
     | _, _ => (w, "bad-op")
   | ["localcol", r, l] =>
     match r.toNat?, parseLabel l with
